@@ -57,6 +57,8 @@ def _driver(pid, cfg, tier, seed, replay_rec, deadline):
         workdir = tempfile.mkdtemp(prefix="run-%s-" % pid, dir=vbuild.BUILD)
         pas = dict(name="main_cmplx" if ok else "main", flags=["-DVERIF_DELAYSEQ_CMPLX"] if ok else [])
         results += chk.run_pass(pid, cfg, pas, tier, replay_rec, deadline, workdir)
+        for xp in cfg.get("extra_passes", []):
+            results += chk.run_pass(pid, cfg, xp, tier, replay_rec, deadline, workdir)
         import shutil
         shutil.rmtree(workdir, ignore_errors=True)
     extra = ["delayseq<cmplx_t> %s on this tree: complex delayseq cases %s" % (
